@@ -390,6 +390,36 @@ def d5(chk, prog):
         ok = ok and kept == want and same(g.data.cols["log2"].v[0], Term.sym("l0")) and g.data.n == 4
         tb2.cell(ok, dict(target_only=target_only, residuals_stored_as=z[0][2] if z else None, bins_at_adjustment=rows_at_z, returned_bins=kept, want_returned=want,
                           note="residuals must be stored as a label-aligned Series (residuals() is in segment order); adjusted p == alpha is not a hit"))
+    # overlapping segments: a bin covered twice is tested once (its first residual), not dropped
+    W.reset()
+    labels = [10, 11, 12, 13]
+    rows = [dict(chromosome="chr1", start=100 * i, end=100 * i + 100, gene=f"b{i}", log2=Term.sym(f"l{i}"), weight=Fr(1, 2)) for i in range(4)]
+    bins = make_ga("CopyNumArray", rows, {"sample_id": "S"}, index="any", exact=True, labels=labels)
+    model = Model()
+    res_vals = [Term.sym("r10"), Term.sym("r11a"), Term.sym("r11b"), Term.sym("r12"), Term.sym("r13")]
+
+    def residuals(it, obj, segments=None):
+        r = Vec(list(res_vals), aligned="any")
+        r.exact, r.labels = True, [10, 11, 11, 12, 13]
+        return r
+    model.method_prims["residuals"] = residuals
+    seen = {}
+    pv = {"b0": Fr(1, 1000), "b1": Fr(2, 1000), "b2": Fr(1, 2), "b3": Fr(3, 1000)}
+
+    def zp(it, cn, seen=seen):
+        seen["bins"] = list(cn.data.cols["gene"].v)
+        seen["log2"] = [repr(x) for x in cn.data.cols["log2"].v]
+        r = Vec([pv[g] for g in cn.data.cols["gene"].v], aligned=True)
+        r.exact, r.labels = True, cn.data.labels
+        return r
+    model.prims["cnvlib.bintest.z_prob"] = zp
+    model.ext["logging.debug"] = lambda it, *a, **k: None
+    it = Interp(prog, model)
+    out = tb2.guard(lambda: it.run(fb.qn, [bins, "SEGMENTS", Fr(5, 1000), False]), "a bin covered by two overlapping segments")
+    if out is not None:
+        kept = list(out.data.cols["gene"].v) if isinstance(out, GA) else None
+        ok = seen.get("bins") == ["b0", "b1", "b2", "b3"] and seen.get("log2") == ["r10", "r11a", "r12", "r13"] and kept == ["b0", "b1", "b3"]
+        tb2.cell(ok, dict(case="bin 11 is covered by two overlapping segments", bins_tested=seen.get("bins"), residuals_used=seen.get("log2"), returned_bins=kept, want_returned=["b0", "b1", "b3"]))
     tb2.done("bintest does not test each bin against its own segment / adjust over the right bins / return exactly adjusted p < alpha")
 
     # exact Benjamini-Hochberg
